@@ -4,6 +4,7 @@ package main
 
 import (
 	"go/ast"
+	"go/constant"
 	"go/types"
 )
 
@@ -11,7 +12,8 @@ var libUsed = map[string]string{}
 
 // library functions that write nothing reachable from the verified code
 var libPure = map[string]bool{
-	"(*sync.Pool).Put": true,
+	"(*sync.Pool).Put": true, "(image.Image).Bounds": true, "(image/draw.Image).Bounds": true, "(golang.org/x/image/draw.Image).Bounds": true,
+	"(image.Rectangle).Size": true, "(image.Rectangle).Dx": true, "(image.Rectangle).Dy": true,
 	"fmt.Fprintf": true, "fmt.Fprint": true, "fmt.Fprintln": true, "(io.Writer).Write": true,
 	"(*bytes.Buffer).Write": true, "(*bytes.Buffer).WriteString": true, "(*strings.Builder).WriteString": true, "(*bytes.Buffer).WriteByte": true,
 	"fmt.Errorf": true, "fmt.Sprintf": true, "fmt.Sprint": true, "fmt.Sprintln": true, "errors.New": true,
@@ -32,6 +34,27 @@ func (x *Exec) callLibrary(s *State, fn *types.Func, recv *Term, args []*Term, c
 			s.assume(And(Cmp("<=", IntLit(0), v[1]), Cmp("<=", v[1], Field(args[0], 2))))
 		}
 		return v, true
+	case "(image.Rectangle).Size", "(image.Rectangle).Dx", "(image.Rectangle).Dy":
+		libUsed[full] = "exact: Max - Min per axis"
+		r := recv
+		if r == nil && len(args) > 0 {
+			r = args[0]
+		}
+		min, max := Field(r, 0), Field(r, 1)
+		dx := Arith("-", Field(max, 0), Field(min, 0))
+		dy := Arith("-", Field(max, 1), Field(min, 1))
+		switch fn.Name() {
+		case "Dx":
+			return []*Term{dx}, true
+		case "Dy":
+			return []*Term{dy}, true
+		}
+		return []*Term{Mk(min.S, dx, dy)}, true
+	case "(image.Image).Bounds", "(image/draw.Image).Bounds", "(golang.org/x/image/draw.Image).Bounds":
+		libUsed[full] = "pure query: a function of the image value and the heap epoch"
+		t := x.typeOf(call)
+		v := x.uf("ext_Bounds", x.eng.tm.sortOf(t), recv, x.epochOf(s))
+		return []*Term{v}, true
 	case "(*sync.Pool).Get":
 		// a recycled or new object: a reference that no live structure points to (no use after Put: assumed),
 		// whose fields hold arbitrary values
@@ -42,7 +65,23 @@ func (x *Exec) callLibrary(s *State, fn *types.Func, recv *Term, args []*Term, c
 	case "(*sync.Pool).Put":
 		libUsed[full] = "no effect on the verified state"
 		return nil, true
-	case "fmt.Fprintf", "fmt.Fprint", "fmt.Fprintln", "(io.Writer).Write", "(*bytes.Buffer).Write", "(*bytes.Buffer).WriteString", "(*strings.Builder).WriteString", "(*bytes.Buffer).WriteByte":
+	case "(*bytes.Buffer).Write":
+		libUsed[full] = "returns (n, err) with n >= 0; literal arguments are recorded in the ghost write log"
+		entry := "?"
+		if len(call.Args) == 1 {
+			if conv, ok := unparen(call.Args[0]).(*ast.CallExpr); ok && len(conv.Args) == 1 {
+				if tv, ok := x.tv(conv.Args[0]); ok && tv.Value != nil && tv.Value.Kind() == constant.String {
+					entry = constant.StringVal(tv.Value)
+				}
+			}
+		}
+		s.log = append(s.log, entry)
+		v := x.havocResults(s, call)
+		if len(v) >= 1 && v[0].S == SInt {
+			s.assume(Cmp("<=", IntLit(0), v[0]))
+		}
+		return v, true
+	case "fmt.Fprintf", "fmt.Fprint", "fmt.Fprintln", "(io.Writer).Write", "(*bytes.Buffer).WriteString", "(*strings.Builder).WriteString", "(*bytes.Buffer).WriteByte":
 		libUsed[full] = "returns (n, err) with n >= 0 bytes written; writes nothing reachable from the verified state"
 		v := x.havocResults(s, call)
 		if len(v) >= 1 && v[0].S == SInt {
